@@ -112,6 +112,36 @@ def setup(ctx):
             ctx.defaults.append([label, d, state_fp(d)])
         except Exception:
             pass
+    # ... and, generically, every mutable default argument object of every function / method defined in the package
+    import sys as _sys
+    seen_ids = {id(r[1]) for r in ctx.defaults}
+
+    def scan(fn_obj, label):
+        f = getattr(fn_obj, "__verif_original__", fn_obj)
+        f = getattr(f, "__wrapped__", f)
+        if not inspect.isfunction(f):
+            return
+        ds = list(f.__defaults__ or ()) + list((f.__kwdefaults__ or {}).values())
+        for d in ds:
+            if d is None or isinstance(d, (bool, int, float, complex, str, bytes, tuple, frozenset, type)) or id(d) in seen_ids:
+                continue
+            try:
+                ctx.defaults.append([label + ":default", d, state_fp(d)])
+                seen_ids.add(id(d))
+            except Exception:
+                pass
+
+    for mname, mod in list(_sys.modules.items()):
+        if not mname.startswith("autoarray") or mod is None:
+            continue
+        for nm, obj in list(vars(mod).items()):
+            if inspect.isfunction(obj) and getattr(obj, "__module__", "") == mname:
+                scan(obj, mname + "." + nm)
+            elif inspect.isclass(obj) and getattr(obj, "__module__", "") == mname:
+                for mn_, meth in list(vars(obj).items()):
+                    meth = meth.__func__ if isinstance(meth, (classmethod, staticmethod)) else meth
+                    scan(meth, mname + "." + nm + "." + mn_)
+    ctx.reach["mutable_default_objects_fingerprinted"] = len(ctx.defaults)
 
     class VerifFit(aa.FitImaging):
         def __init__(self, dataset, model, inv=None, **k):
@@ -142,7 +172,7 @@ def teardown(ctx):
 def check_defaults(ctx, where):
     for rec in ctx.defaults:
         h = state_fp(rec[1])
-        ctx.check(h == rec[2], "defaults.unchanged", default=rec[0], where=where, state=lambda: {k: repr(v)[:60] for k, v in vars(rec[1]).items()})
+        ctx.check(h == rec[2], "defaults.unchanged", default=rec[0], where=where, state=lambda: ({k: repr(v)[:60] for k, v in vars(rec[1]).items()} if hasattr(rec[1], "__dict__") else repr(rec[1])[:200]))
         rec[2] = h
 
 
@@ -587,6 +617,21 @@ def run_sweep(ctx, i):
             do(lambda: md.grids.uniform)
             do(lambda: md.convolver)
             do(lambda: md.w_tilde)
+    # a classmethod with an optional list argument, called with the argument omitted for two different masks (A, B, A again): equal
+    # inputs give equal results whatever was computed in between
+    def radial(mk_):
+        g_ = aa.Grid2D.from_mask(mask=mk_)
+        ext_ = max(H * ps[0], W * ps[1])
+        return _np(aa.OverSamplingUniform.from_radial_bins(grid=g_, sub_size_list=[4, 2, 1], radial_list=[0.27 * ext_, 0.55 * ext_, 1e6 * ext_]).sub_size).astype(int)
+    m_b = np.roll(m, 1, axis=1)
+    if m_b.all():
+        m_b = m.copy()
+    mask_b = aa.Mask2D(mask=m_b, pixel_scales=ps, origin=(float(rng.normal()), float(rng.normal())))
+    ra1 = do(lambda: radial(mask))
+    do(lambda: radial(mask_b))
+    ra2 = do(lambda: radial(mask))
+    if ra1 is not None and ra2 is not None:
+        ctx.check(np.array_equal(ra1, ra2), "deterministic", what="OverSamplingUniform.from_radial_bins(default centre) on mask A, then B, then A again", first=ra1, again=ra2)
     do(lambda: preprocess.noise_map_with_signal_to_noise_limit_from(data=data, noise_map=noise, signal_to_noise_limit=2.0))
     do(lambda: preprocess.noise_map_via_weight_map_from(weight_map=data))
     do(lambda: preprocess.noise_map_via_inverse_noise_map_from(inverse_noise_map=data))
@@ -740,6 +785,28 @@ def run_determ(ctx, i):
     np.random.random(7)
     b = _np(preprocess.data_with_gaussian_noise_added(data=aa.Array2D.no_mask(values=img_v.copy(), pixel_scales=0.3), sigma=0.3, seed=seed))
     ctx.check(np.array_equal(a, b), "deterministic.simulator_seed", which="data_with_gaussian_noise_added", noise_seed=seed)
+    # a zoom window that reaches beyond the frame (unmasked pixels on the frame edge, buffer >= 1): repeated with freshly freed,
+    # differently filled memory of the same size in between - cells outside the frame must not carry whatever was there before
+    Hz, Wz = int(rng.integers(5, 9)), int(rng.integers(5, 9))
+    mz = np.ones((Hz, Wz), bool)
+    mz[0:2, 1:Wz - 1] = False
+    if i % 2:
+        mz = mz.T.copy()
+    vz = rng.normal(size=mz.shape)
+    zooms = []
+    for rep, fill in enumerate((7.25, -3.5, 1e6, 0.0)):
+        for shp in ((mz.shape[0] + 2, mz.shape[1] + 2), (max(mz.shape) + 2,) * 2, (4, mz.shape[1] + 2), (mz.shape[0] + 2, 4), (4, 4), (5, 5), (6, 6), (7, 7)):
+            junk = [np.full(shp, fill) for _ in range(6)]
+            del junk
+        az = aa.Array2D(values=vz.copy(), mask=aa.Mask2D(mask=mz.copy(), pixel_scales=0.5))
+        try:
+            zooms.append(np.array(_np(az.zoomed_around_mask(buffer=1 + rep % 2).native), dtype=float))
+        except Exception as e:
+            zooms.append(repr(e)[:80])
+    same02 = isinstance(zooms[0], np.ndarray) and isinstance(zooms[2], np.ndarray) and zooms[0].shape == zooms[2].shape and np.array_equal(zooms[0], zooms[2], equal_nan=True)
+    same13 = isinstance(zooms[1], np.ndarray) and isinstance(zooms[3], np.ndarray) and zooms[1].shape == zooms[3].shape and np.array_equal(zooms[1], zooms[3], equal_nan=True)
+    ctx.check(same02 and same13, "deterministic", what="Array2D.zoomed_around_mask repeated after unrelated allocations", mask=mz,
+              first=lambda: zooms[0], again=lambda: zooms[2])
     ctx.case("determ", i, nontrivial=True, cls=["determinism"], sample=lambda: {"determinism": i, "noise_seed": seed})
 
 
